@@ -14,7 +14,7 @@ ANCHORS = ("ladim/out_netcdf.py",)
 RULE = ("seeded release/death histories (releases at several times, deaths by the scripted IBM and by leaving the grid, "
         "records with zero particles, highest pids dead at file close), instance variables of several types, particle "
         "variables incl. time-typed, sparse and dense layout, arbitrary reference time, split files; the state at the "
-        "moment Output.write is entered (recording shim) is compared with the files read back exactly as "
+        "moment Output.update is entered at an output step (recording shim) is compared with the files read back exactly as "
         "doc/source/output.rst prescribes. Non-trivial: >= 2 records and (a death or a late release or an empty "
         "record); distinct by (layout, numrec, variables, abstract step history)")
 COMPONENTS = {"real": ["out_netcdf.Output (write, write_particle_variables, create_netcdf, roll-over)", "State.compactify",
@@ -104,7 +104,7 @@ def execute(sc) -> Result:
         out = sc["output"]
         layout = out.get("layout", "sparse")
         res.history_key = "|".join(map(str, (layout, out.get("numrec", 0), sorted(out["ivars"].items()),
-                                             sorted(out.get("pvars", {}).items()), out["period"]))) + "|" + abstract_history(run)
+                                             sorted(out.get("pvars", {}).items()), out["period"]))) + "|" + abstract_history(run, sc)
         check_run(res, sc, run, d, "out", truth.t_ref(sc))
         # ---- the same for a run that is warm-started from the first completed file (records are then written
         #      at steps that do not start at zero; the time coordinate must still be the model time)
@@ -134,13 +134,13 @@ def check_run(res: Result, sc, run, d, stem: str, ref_t, warm: bool = False) -> 
         if foreign:
             res.aborted_foreign += 1
         rec = run.rec
-        writes = rec.snaps_at("output.write")
+        writes = rec.record_snaps(out["period"])
         R = readback.Records(readback.list_output_files(d, stem))
         for e in R.errors:
             if run.error is None:
                 res.add(Violation("C06.unreadable", None, "file", e, "readable"))
         if run.error is None and len(R.recs) != len(writes):
-            res.add(Violation("C06.members", None, "number of records", len(R.recs), f"{len(writes)} write calls"))
+            res.add(Violation("C06.members", None, "number of records", len(R.recs), f"{len(writes)} output steps"))
         ivars = {k: t for k, t in out["ivars"].items() if k not in ("lon", "lat")}
         if layout == "dense":
             ivars.pop("pid", None)
